@@ -21,7 +21,9 @@ from flexstack.facilities.local_dynamic_map import ldm_classes as LC
 
 LEVEL = "model_checking"
 
-POSITIONS = [(41.386931, 2.112104), (-33.8688, 151.2093), (40.7128, -74.006), (-22.9068, -43.1729), (0.0000001, -0.0000001), (89.9, 179.9)]
+# exact zeros included (equator / prime meridian: 0.0 is a coordinate, not "missing")
+POSITIONS = [(41.386931, 2.112104), (0.0, 0.0), (-33.8688, 151.2093), (40.7128, -74.006), (-22.9068, -43.1729), (0.0000001, -0.0000001),
+             (0.0, 2.5), (41.5, 0.0), (89.9, 179.9)]
 
 
 class StubBTP:
